@@ -256,6 +256,33 @@ def rule_P2(prog, fixture=False):
                        "thread_local" if s["tls"] else "static"), extra=px)
         else:
             res.add(okey, DISCHARGED, where, name, "initialiser is independent of the call (%s)" % (s.get("init_text") or "default"), extra=px)
+    # P2g: a pointer handed from thread to thread through an atomic needs an acquiring read on every way it can be obtained
+    for f in sorted(prog.functions.values(), key=lambda g: (g.file, g.line, g.name)):
+        if f.get("implicit") or f.file.endswith("coverage.cc"):
+            continue
+        k_in_f = 0
+        for c in f.walk():
+            if not (c.k == "CXXMemberCallExpr" and c.callee and "atomic" in (c.callee.get("cls") or c.callee.get("qn") or "")):
+                continue
+            obj = c.call_object()
+            ot = (obj.type or "") if obj is not None else ""
+            if "atomic<" not in ot or "*" not in ot.split("atomic<", 1)[1]:
+                continue
+            nm = (c.callee.get("qn") or "").rsplit("::", 1)[-1]
+            if nm not in ("load", "exchange", "compare_exchange_strong", "compare_exchange_weak", "fetch_add", "fetch_sub"):
+                continue
+            relaxed = [a for a in c.call_args() if "memory_order_relaxed" in a.text() or "memory_order::relaxed" in a.text()]
+            k_in_f += 1
+            okey = "P2g:%s:%s#%d" % (f.name.replace("(anonymous namespace)::", "").split("(")[0], nm, k_in_f)
+            where = "%s:%d" % (prog.rel(f.file), c.line)
+            px = {"props": _p2_props(prog.rel(f.file))}
+            if relaxed:
+                res.add(okey, VIOLATED, where, "%s in %s" % (c.text()[:70], f.short),
+                        "a pointer is read from an atomic that threads share under memory_order_relaxed (%s): the thread that obtains it "
+                        "this way has no happens-before edge to the writes that filled what it points to, dereferencing it is a data race"
+                        % ("the failure order of the exchange" if nm.startswith("compare_exchange") else nm), func=f.name, extra=px)
+            else:
+                res.add(okey, DISCHARGED, where, "%s in %s" % (c.text()[:70], f.short), "no relaxed order on a shared pointer", func=f.name, extra=px)
     res.stats["static_objects"] = n
     res.stats["thread_local"] = sorted(o.what for o in res.obs if o.extra.get("tls"))
     return res
@@ -603,6 +630,11 @@ NON_REENTRANT = {
     "tmpnam": "static buffer", "setlocale": "changes the process-wide locale", "rand": "hidden generator state",
     "srand": "hidden generator state", "random": "hidden generator state", "srandom": "hidden generator state",
     "drand48": "hidden generator state", "lrand48": "hidden generator state", "mrand48": "hidden generator state", "srand48": "hidden generator state",
+    "_mm_setcsr": "changes the calling thread's floating-point mode (flush-to-zero, rounding) for everything that runs later in that thread",
+    "__builtin_ia32_ldmxcsr": "changes the calling thread's floating-point mode for everything that runs later in that thread",
+    "fesetround": "changes the calling thread's rounding mode for everything that runs later in that thread",
+    "fesetenv": "replaces the calling thread's floating-point environment", "feupdateenv": "replaces the calling thread's floating-point environment",
+    "_controlfp": "changes the floating-point control word",
     "readdir": "static dirent", "getpwnam": "static struct", "getpwuid": "static struct", "ecvt": "static buffer", "fcvt": "static buffer",
 }
 
@@ -646,7 +678,7 @@ def rule_P4(prog, fixture=False):
                 m = re.search(r"@F@([A-Za-z_0-9]+)", u)
                 nice.append(m.group(1) if m else u[:30])
             res.add("P4:%s:%s" % (fkey(f), name), VIOLATED, "%s:%d" % (prog.rel(f.file), line or f.line), "%s reaches %s" % (f.short, name),
-                    "%s %s (via %s): concurrent calls from two threads race on that state, whatever objects they use" % (
+                    "%s %s (via %s): calls from different threads race on that state or see what another call left there, whatever objects they use" % (
                         name, NON_REENTRANT[name], " -> ".join(nice)), func=f.name, extra={"props": ["C09"]})
     res.add("P4:library", DISCHARGED if not hits else VIOLATED, "-", "all %d library functions" % n_funcs,
             "no function reaches one of the %d tabulated non-reentrant C routines through external code" % len(NON_REENTRANT) if not hits
